@@ -3,7 +3,7 @@
 //
 // Op lines (hex, "-" = nil/empty), one implementation answer each (see lean/Driver/C06.lean):
 //
-//	open mem|level|badger ; reopen ; put k v ; del k ; get k ; batch S:k:v,D:k,… ;
+//	open mem|level|badger ; reopen ; put k v ; del k ; get k ; batch S:k:v,N:k,D:k,R,… ;
 //	it start end rev ; rewind ; next ; seek k
 //
 // The property predicate (C06) is evaluated on the implementation against a plain in-harness
@@ -295,30 +295,51 @@ func (s *sut) get(k []byte) {
 }
 
 type bop struct {
-	del  bool
-	k, v []byte
+	del   bool
+	reset bool
+	k, v  []byte // v == nil: Set(k, nil); v non-nil (possibly empty): Set(k, v)
 }
 
+// batch builds a batch through the Batch interface (Set / Delete / Reset), reads ValueSize and
+// ValueLen, then writes it.  Output: "<ok|notfound> <ValueSize> <ValueLen>".
 func (s *sut) batch(ops []bop) {
 	s.closeIt()
 	b := s.db.NewBatch(false)
 	var parts []string
+	eff := ops[:0:0]
 	for _, o := range ops {
-		if o.del {
+		switch {
+		case o.reset:
+			b.Reset()
+			parts = append(parts, "R")
+			eff = eff[:0]
+			out.Stat("batch_reset", 1)
+			continue
+		case o.del:
 			b.Delete(o.k)
 			parts = append(parts, "D:"+hx(o.k))
-		} else {
+		case o.v == nil:
+			b.Set(o.k, nil)
+			parts = append(parts, "N:"+hx(o.k))
+			out.Stat("batch_set_nil", 1)
+		default:
 			b.Set(o.k, o.v)
 			parts = append(parts, "S:"+hx(o.k)+":"+hx(o.v))
+			if len(o.v) == 0 {
+				out.Stat("batch_set_empty_nonnil", 1)
+			}
 		}
+		eff = append(eff, o)
 	}
+	size, ln := b.ValueSize(), b.ValueLen()
 	err := b.Write()
 	line := "-"
 	if len(parts) > 0 {
 		line = strings.Join(parts, ",")
 	}
-	out.Op("batch "+line, errName(err))
-	for _, o := range ops {
+	out.Op("batch "+line, fmt.Sprintf("%s %d %d", errName(err), size, ln))
+	// reference: the calls after the last Reset, in order; Set(k, nil/empty) stores an empty value
+	for _, o := range eff {
 		if o.del {
 			delete(s.ref, string(o.k))
 		} else {
@@ -595,10 +616,17 @@ func runSequence(s *sut, r *gen.Rand, backend string, nops int, variant int) {
 			n := r.Intn(6)
 			var ops []bop
 			for j := 0; j < n; j++ {
-				if r.Chance(1, 3) {
+				switch {
+				case r.Chance(1, 12):
+					ops = append(ops, bop{reset: true})
+				case r.Chance(1, 3):
 					ops = append(ops, bop{del: true, k: g.key()})
-				} else {
-					ops = append(ops, bop{k: g.key(), v: g.value()})
+				default:
+					v := g.value()
+					if v == nil && r.Bool() {
+						v = []byte{} // non-nil empty slice
+					}
+					ops = append(ops, bop{k: g.key(), v: v})
 				}
 			}
 			s.batch(ops)
@@ -739,7 +767,16 @@ func replay(s *sut, lines []string) {
 						k, ok1 := unhx(q[1])
 						v, ok2 := unhx(q[2])
 						okAll = okAll && ok1 && ok2
+						if v == nil {
+							v = []byte{}
+						}
 						ops = append(ops, bop{k: k, v: v})
+					case len(q) == 2 && q[0] == "N":
+						k, ok1 := unhx(q[1])
+						okAll = okAll && ok1
+						ops = append(ops, bop{k: k})
+					case len(q) == 1 && q[0] == "R":
+						ops = append(ops, bop{reset: true})
 					case len(q) == 2 && q[0] == "D":
 						k, ok1 := unhx(q[1])
 						okAll = okAll && ok1
